@@ -99,7 +99,7 @@ pub fn explore(ctx: &Ctx, shard: usize, n: usize) -> Report {
     let mut rep = Report::new(RULE);
     part1(&mut rep, shard, n);
     // (2) rule respellings
-    let p2 = drive::cases(ctx, shard, n, RULE, 0x13, 40_000, 2_000_000, |r, rep, _| {
+    let p2 = drive::cases(ctx, shard, n, RULE, 0x13, 40_000, 10_000_000, |r, rep, _| {
         let ast = rand_rule(r, &RuleCfg::default());
         let sp = Spelling { arrow: r.below(3) as u8, dslash: r.chance(1, 2), empty_set: r.chance(1, 2), ellipsis: r.below(3) as u8, ascii_angle: r.chance(1, 2), matrix_spaces: r.chance(1, 3), greek: r.chance(1, 2), feat_variant: r.next() as u32, comment: if r.chance(1, 3) { Some("a comment > / | _".to_string()) } else { None }, var_shift: r.below(3) as u8 * 3, alpha_shift: r.below(4) as u8 };
         let (a, b) = (plain(&ast), sp.rule(&ast));
@@ -112,7 +112,7 @@ pub fn explore(ctx: &Ctx, shard: usize, n: usize) -> Report {
     });
     rep.merge(p2);
     // (3) word respellings
-    let p3 = drive::cases(ctx, shard, n, RULE, 0x1313, 40_000, 2_000_000, |r, rep, _| {
+    let p3 = drive::cases(ctx, shard, n, RULE, 0x1313, 40_000, 10_000_000, |r, rep, _| {
         let rule = plain(&rand_rule(r, &RuleCfg { max_side: 2, ..RuleCfg::default() }));
         let mut w = rand_word(r, &WordCfg::default());
         // sprinkle the segments that have ASCII aliases
